@@ -23,7 +23,7 @@ prop = Prop(
 )
 prop.engine = "detloop"
 
-ALL_OPS = ("map", "zip", "scatter", "gather", "cond", "loop", "exec", "cross")
+ALL_OPS = ("map", "zip", "scatter", "gather", "cond", "loop", "exec", "cross", "shuffle", "join")
 
 nofail_case = st.fixed_dictionaries(
     {
@@ -115,7 +115,7 @@ async def check_fail(case, rec):
 
     blocks, streams = progs.analyse(case["prog"])
     ref = progs.interpret(blocks)
-    cands = [n for n, b in enumerate(blocks) if b["op"] in ("map", "zip", "cond", "exec", "loop")]
+    cands = [n for n, b in enumerate(blocks) if b["op"] in ("map", "zip", "join", "cond", "exec", "loop")]
     faults: dict[str, list[str]] = {}
     fail_plan: dict[str, dict[str, int]] = {}
     mode = "status"
